@@ -380,7 +380,9 @@ SplitEmpty(st) ==
 \* write_fp to a buffer; close; open_fp on the buffer
 ReopenF(st) ==
     IF st.phase # "live" THEN Refuse("bad_state")
-    ELSE LET s0 == [st EXCEPT !.grp = [i \in DOMAIN st.blob |-> i]]   \* classes as written
+    \* (grp is kept: names of empty content that were one link class before an earlier reopen may still
+    \* be one on disc - UDF names sharing a File Entry - or not - ISO9660/Joliet names; either is admissible)
+    ELSE LET s0 == st
          IN Ok(SplitEmpty([s0 EXCEPT !.gen = @ + 1, !.cfg.level = InferredLevel(st), !.dirty = FALSE]))
 
 Mutators == {"AddFp", "AddDir", "RmDir", "AddHardLink", "RmHardLink", "RmFile", "SetHidden", "ClearHidden",
